@@ -136,6 +136,35 @@ func (p *Program) Pos(pos token.Pos) string {
 	return fmt.Sprintf("%s:%d", f, q.Line)
 }
 
+var srcCache = map[string][]string{}
+
+// SrcAnchor returns the whitespace-free source text of the line at pos (truncated).
+func (p *Program) SrcAnchor(pos token.Pos) string {
+	if !pos.IsValid() {
+		return "?"
+	}
+	q := p.Fset.Position(pos)
+	lines, ok := srcCache[q.Filename]
+	if !ok {
+		b, err := os.ReadFile(q.Filename)
+		if err == nil {
+			lines = strings.Split(string(b), "\n")
+		}
+		srcCache[q.Filename] = lines
+	}
+	if q.Line-1 >= len(lines) || q.Line < 1 {
+		return p.Pos(pos)
+	}
+	t := strings.Join(strings.Fields(lines[q.Line-1]), "")
+	if i := strings.Index(t, "//"); i > 0 {
+		t = t[:i]
+	}
+	if len(t) > 48 {
+		t = t[:48]
+	}
+	return t
+}
+
 // Loop analysis -----------------------------------------------------------
 
 type Loop struct {
